@@ -13,3 +13,11 @@ Proof. reflexivity. Qed.
 Lemma link_layer_accumulator : forall dw ub w x b kops kdw,
   gen_layer_accumulator dw ub w x b kops kdw = layer_acc w x (if dw then kdw else kops) (if ub then Some b else None).
 Proof. intros [] [] w x b kops kdw; reflexivity. Qed.
+
+(* the auto power-of-two adjustment (qtools_util.adjust_multiplier_for_auto_po2 / adjust_accumulator_for_auto_po2) *)
+Lemma link_adjust_auto_po2 : forall m mn mx, gen_adjust_auto_po2 m mn mx = adjust_auto_po2 m mn mx.
+Proof. reflexivity. Qed.
+Lemma link_fused_accumulator : forall dw ub w x b kops kdw mn mx,
+  gen_fused_accumulator dw ub (gen_adjust_auto_po2 (gen_layer_multiplier w x) mn mx) b kops kdw =
+  layer_fused_acc w x (if dw then kdw else kops) (if ub then Some b else None) mn mx.
+Proof. intros [] [] w x b kops kdw mn mx; reflexivity. Qed.
